@@ -1,5 +1,5 @@
 (* Properties_C04.v — end to end, browsers converge to the services actually offered (partial). *)
-From QV Require Import Base Fields SrcFacts Msg SrcDecisions Cache CacheSpec Sim Prober Hostname Provider ProviderSpec ProviderListener Browser BrowserProofs NetProofs NetHop NetPair NetLag NetTwo.
+From QV Require Import Base Fields SrcFacts Msg SrcDecisions Cache CacheSpec Sim Prober Hostname Provider ProviderSpec ProviderListener Browser BrowserProofs NetProofs NetHop NetPair NetLag NetTwo NetMany.
 From QV Require Import Decoder Encoder WireSpec WireMsg DecoderMsg EncoderMsg.
 Local Open Scope Z_scope.
 
@@ -352,3 +352,22 @@ Print Assumptions C04_unrelated_when.
 
 Example C04_unrelated_example : Unrelated [95; 97; 46]%N [95; 98; 46]%N.      (* "_a." and "_b." *)
 Proof. exact unrelated_example. Qed.
+
+(* Any number of providers (NetMany.v): the provider of type T and a list of further providers - each its own hostname +
+   provider + prober composite, of a type unrelated to T; they may share types among themselves - acting in ANY
+   interleaving; any number of browsers of type T, each with its own cache, hear every multicast response of ALL of them,
+   in order.  After every step each browser reports exactly what the provider of type T serves. *)
+Theorem C04_browsers_follow_their_provider_among_many_partial T c L os ws :
+  T <> [] -> bytes_eqb T browse_type = false -> Forall (fun o => Unrelated T (o_type o)) os ->
+  netN T c L os ws -> Forall (reports_served T c) ws.
+Proof. exact (browsers_follow_their_provider_among_many T c L os ws). Qed.
+Print Assumptions C04_browsers_follow_their_provider_among_many_partial.
+
+(* non-vacuity: two providers ("_t." and "_b.") register, create, update and complete their probes, interleaved step by
+   step, a third one ("_b." too) stays idle, two browsers listen; both active providers end confirmed *)
+Example C04_many_nonvacuous :
+  let T := [95; 116; 46]%N in let T' := [95; 98; 46]%N in
+  exists c L o o' ws, netN T c L [o; o'] ws /\ pv_confirmed (cp_prov c) = true /\ pv_confirmed (cp_prov (o_comp o)) = true
+    /\ o_type o = T' /\ o_type o' = T' /\ length L = 3%nat /\ length (o_link o) = 3%nat /\ length ws = 2%nat
+    /\ Forall (fun o => Unrelated T (o_type o)) [o; o'].
+Proof. exact many_nonvacuous. Qed.
